@@ -271,6 +271,10 @@ def _sweep_scenario(i: int, tier: str, prop: str) -> dict:
                reuse_builder=False, prelude=None, preexist=None, faults={"mode": "none"})
     depth = ("early" if tier == "quick" else "all") if variant < 2 else ("sites" if tier == "quick" else "early")
     scn["interleave"] = {"sweep": [part, of], "depth": depth, "other": _twin_program(scn, rng)}
+    if variant < 2 and part % 3 == 0:
+        # the same canonical program also gets the interruption sweep (first 12 executions of every
+        # source line, every write), spread over 4 runs per byte order
+        scn["interrupt"] = {"sweep": [part // 3, 4]}
     return scn
 
 
@@ -418,6 +422,9 @@ def generate(rng, tier: str, i: int, prop: str, nested: bool = False) -> dict:
         if rng.random() < 0.15:
             # a different builder writes a different file first, successfully
             scn["predecessor"] = _sub_program(rng, tier, prop)
+        if small and rng.random() < 0.12:
+            # Ctrl-C / cancellation at one point of building + create(), then continued use
+            scn["interrupt"] = {"frac": rng.random(), "where": rng.choice(["line", "line", "write"])}
         if small and rng.random() < 0.12:
             # a second caller's whole create() lands between two lines of this create()
             scn["interleave"] = {"frac": rng.random(), "where": rng.choice(["line", "write", "site"]),
@@ -932,6 +939,9 @@ class SqwEngine(Engine):
         # ---- a second caller's create() interleaved with this one -----------------
         if scn.get("interleave"):
             self._interleaved(scn, ctx, fin)
+        # ---- the caller is interrupted in the middle, then carries on --------------
+        if scn.get("interrupt"):
+            self._interrupted(scn, ctx, fin)
 
         # ---- fault family ---------------------------------------------------------
         mode = scn["faults"]["mode"]
@@ -1030,6 +1040,83 @@ class SqwEngine(Engine):
             self._judge_other(other, ctx, sink_o.getvalue(), f"interleaved{tag} (pre-empting caller, {desc})")
         for v in ctx.violations[n0:]:
             v.setdefault("hint", {}).update(hint)
+
+    def _interrupt_once(self, mem, ctx, fin, where, at, totals, prefixes, tag=""):
+        """The caller is interrupted (Ctrl-C, task cancelled) at one scheduling point of building /
+        create(); what survives is the process: module state and, if it got that far, the builder.
+        Afterwards the same builder (if any) writes again and a fresh builder writes the same
+        program: both files must be complete and carry what was supplied."""
+        kind = {"line": "interrupt_at_line", "write": "interrupt_in_write"}[where]
+        ctx.fault_configured(kind)
+        keep: dict = {}
+        if where == "write":
+            sink = seams.SimBytesIO(ctx=ctx, yield_at={at: seams.interrupt_now})
+            run = lambda: self._create(mem, ctx, sink, label="create_interrupted", keep=keep)  # noqa: E731
+        else:
+            sink = seams.SimBytesIO(ctx=ctx)
+            pre = seams.Preemptor(prefixes, {at: seams.interrupt_now})
+            run = lambda: pre.run(lambda: self._create(mem, ctx, sink, label="create_interrupted", keep=keep))  # noqa: E731
+        try:
+            run()
+            ctx.probe("interruption_point_not_reached")
+            return
+        except seams.SimInterrupt:
+            pass
+        ctx.fault_fired(kind)
+        ctx.log("interrupted", where, at, totals[where])
+        desc = f"{where} {at}/{totals[where]}"
+        hint = {"int_where": where, "int_at": at}
+        n0 = len(ctx.violations)
+        if "builder" in keep:
+            # the builder survived the interruption of its create(): it writes again
+            sink.seek(0)
+            sink.truncate(0)
+            exc = self._create_again(mem, ctx, keep["builder"], "create_again_after_interrupt")
+            if exc is not None:
+                ctx.violate("create_raised", f"[after interruption at {desc}] create() on the same builder raised {exc}",
+                            kind="create_after_interrupt_raised", exc=exc.name, _hint=hint)
+            else:
+                buf = sink.getvalue()
+                dec = ref_sqw.decode_file(buf)
+                self._judge_structure(mem, ctx, fin, buf, dec, None, where=f"same builder after interruption at {desc}{tag}")
+                if self.prop == "C13":
+                    self._judge_content(mem, ctx, fin, dec, where=f"same builder after interruption at {desc}{tag}")
+                ctx.probe("same_builder_after_interruption")
+        fresh = seams.SimBytesIO(ctx=ctx)
+        exc = self._create(mem, ctx, fresh, label="create_fresh_after_interrupt")
+        if exc is not None:
+            ctx.violate("create_raised", f"[after interruption at {desc}] a fresh builder's create() raised {exc}",
+                        kind="create_after_interrupt_raised", exc=exc.name, _hint=hint)
+        else:
+            buf = fresh.getvalue()
+            dec = ref_sqw.decode_file(buf)
+            self._judge_structure(mem, ctx, fin, buf, dec, None, where=f"fresh builder after interruption at {desc}{tag}")
+            if self.prop == "C13":
+                self._judge_content(mem, ctx, fin, dec, where=f"fresh builder after interruption at {desc}{tag}")
+        for v in ctx.violations[n0:]:
+            v.setdefault("hint", {}).update(hint)
+
+    def _interrupted(self, scn, ctx, fin):
+        import scippneutron.io.sqw as sqw
+
+        it = scn["interrupt"]
+        prefixes = (os.path.dirname(sqw.__file__) + os.sep,)
+        mem = dict(scn, sink="mem")
+        totals = self._count_points(mem, ctx, prefixes)
+        if totals is None:
+            return
+        if it.get("sweep"):
+            part, of = it["sweep"]
+            pts = [("line", k) for k in totals["early"]] + [("write", k) for k in range(totals["write"])]
+            mine = [pt for n, pt in enumerate(pts) if n % of == part]
+            for where, at in mine:
+                self._interrupt_once(mem, ctx, fin, where, at, totals, prefixes, " sweep")
+            ctx.count("interruption_points_enumerated", len(mine))
+            return
+        where = it.get("where", "line")
+        total = totals[where]
+        at = it["at"] if "at" in it else (min(total - 1, int(it["frac"] * total)) if total else 0)
+        self._interrupt_once(mem, ctx, fin, where, at, totals, prefixes)
 
     def _interleaved(self, scn, ctx, fin):
         import scippneutron.io.sqw as sqw
@@ -1965,6 +2052,15 @@ def _shrink(self, scn, violation=None):
         c = copy.deepcopy(s)
         c["interleave"] = {"where": hint["il_where"], "at": hint["il_at"], "other": s["interleave"]["other"]}
         yield c
+    if s.get("interrupt") and "int_where" in hint and (s["interrupt"].get("sweep") or s["interrupt"].get("at") != hint["int_at"]):
+        c = copy.deepcopy(s)
+        c["interrupt"] = {"where": hint["int_where"], "at": hint["int_at"]}
+        c.pop("interleave", None)
+        yield c
+    if s.get("interrupt"):
+        c = copy.deepcopy(s)
+        del c["interrupt"]
+        yield c
     for key in ("predecessor", "interleave"):
         if s.get(key):
             c = copy.deepcopy(s)
@@ -2067,8 +2163,8 @@ def _shrink(self, scn, violation=None):
 SqwEngine.nontrivial = _nontrivial
 SqwEngine.describe = _describe
 SqwEngine.shrink = _shrink
-SqwEngine.selftest_indices = lambda self, n: [0, 1, 24, 25, SWEEP_RUNS] + list(
-    range(SWEEP_RUNS + SIZE_SWEEP_RUNS, SWEEP_RUNS + SIZE_SWEEP_RUNS + n - 5))
+SqwEngine.selftest_indices = lambda self, n: [0, 24, SWEEP_RUNS] + list(
+    range(SWEEP_RUNS + SIZE_SWEEP_RUNS, SWEEP_RUNS + SIZE_SWEEP_RUNS + n - 3))
 
 
 def make_engine(prop):
